@@ -181,6 +181,8 @@ pub struct Core {
     pub log: Rc<RefCell<Vec<Call>>>,
     pub reads: usize,
     pub total: usize,
+    /// signal slots swapped in place for the previous answer (to be swapped back)
+    pub swapped: Option<(usize, usize)>,
 }
 
 impl Core {
@@ -194,7 +196,7 @@ impl Core {
                 t
             })
             .collect();
-        Core { spec, signals, rewidthed, log: Rc::new(RefCell::new(vec![])), reads: 0, total: 0 }
+        Core { spec, signals, rewidthed, log: Rc::new(RefCell::new(vec![])), reads: 0, total: 0, swapped: None }
     }
 
     fn record(&mut self, read: bool, inputs: &[InputEntry<'_>]) -> usize {
@@ -212,6 +214,9 @@ impl Core {
     }
 
     fn do_read(&mut self, inputs: &[InputEntry<'_>]) -> Result<Vec<OutputEntry<'_>>, DriverError> {
+        if let Some((a, b)) = self.swapped.take() {
+            self.signals.swap(a, b);
+        }
         let li = self.record(true, inputs);
         let t = self.total;
         self.total += 1;
@@ -242,10 +247,23 @@ impl Core {
                         ans[p % n] = (*s, false, self.spec.answer(c, *s));
                     }
                     Deviation::Rewidth(p) => ans[p % n].1 = true,
+                    Deviation::SwapInPlace(p, q) => {
+                        let (a, b) = (ans[p % n].0, ans[q % n].0);
+                        if a != b {
+                            self.signals.swap(a, b);
+                            self.swapped = Some((a, b));
+                        }
+                    }
                 }
             }
         }
-        self.log.borrow_mut()[li].answer = ans.iter().map(|(s, _, v)| (*s, *v)).collect();
+        // what was reported, by signal identity (a slot swapped in place names the other signal)
+        let ident = |s: usize| match self.swapped {
+            Some((a, b)) if s == a => b,
+            Some((a, b)) if s == b => a,
+            _ => s,
+        };
+        self.log.borrow_mut()[li].answer = ans.iter().map(|(s, _, v)| (ident(*s), *v)).collect();
         Ok(ans
             .into_iter()
             .map(|(s, rw, v)| OutputEntry {
@@ -256,6 +274,9 @@ impl Core {
     }
 
     fn do_write(&mut self, inputs: &[InputEntry<'_>]) -> Result<(), DriverError> {
+        if let Some((a, b)) = self.swapped.take() {
+            self.signals.swap(a, b);
+        }
         let li = self.record(false, inputs);
         let t = self.total;
         self.total += 1;
@@ -649,6 +670,11 @@ pub enum StaticRun {
 }
 
 pub fn run_static(tc: &TestCase, max_next: usize, seed: Option<u64>) -> StaticRun {
+    run_static_opts(tc, max_next, seed, false)
+}
+
+/// as `run_static`; with `go_on` the caller keeps calling next() after an error item
+pub fn run_static_opts(tc: &TestCase, max_next: usize, seed: Option<u64>, go_on: bool) -> StaticRun {
     digital_test_runner::verif_hooks::set_seed_override(seed);
     digital_test_runner::verif_hooks::set_fuel(Some(DEFAULT_FUEL));
     digital_test_runner::verif_hooks::set_deadline(Some(std::time::Instant::now() + std::time::Duration::from_millis(RUN_DEADLINE_MS)));
@@ -689,7 +715,9 @@ pub fn run_static(tc: &TestCase, max_next: usize, seed: Option<u64>) -> StaticRu
                     Ok(Some(Ok(r))) => items.push(StaticItem::Row(r)),
                     Ok(Some(Err(e))) => {
                         items.push(StaticItem::Err(err_chain(&e)));
-                        break;
+                        if !go_on {
+                            break;
+                        }
                     }
                 }
             }
